@@ -137,7 +137,7 @@ reg("C16",
          "non-trivial = the history completed with at least 3 wake-ups; distinct = distinct parameter signatures",
     assumptions=["quiescence is established by the engine: ledgers equal, from_app == to_lower, xcm_finish == 0 on both ends"])
 
-STATES = ENGINE + ["vdns.c", "vnet.c", "vstate.c"]
+STATES = ENGINE + ["vdns.c", "vnet.c", "vstate.c", "vctl.c"]
 
 reg("C10",
     title="attribute reads and writes are memory-safe and type-checked",
@@ -172,11 +172,11 @@ reg("C07",
 reg("C05",
     title="non-blocking sockets never put the calling thread to sleep",
     technique="interposition monitor on the waiting primitives (poll/ppoll/select/epoll_wait/epoll_pwait with non-zero timeout, sleeps, connect/accept/send/recv on descriptors lacking O_NONBLOCK) armed while a call on a non-blocking socket is in progress; sockets held in every phase by a silent stub resolver, a no-answer address, a silent TLS peer, back-pressure; ASan+UBSan",
-    level_text="Random sequences of every public call (connect_a, accept, send, receive, finish, await, fd, attribute get/set/get_all, remote/local addr, set_blocking(false), close) are made on non-blocking sockets of all transports held in each phase: resolving (stub resolver that never answers), TCP connecting (address whose SYNs are dropped), TLS handshaking (raw peer that accepts and stays silent), back-pressured, established, peer closed (seen and unseen), failed; plus connections driven from creation to readiness through a delayed resolver answer and a first candidate that does not answer. The shim flags the waiting primitive itself, whether or not the wait happened to be satisfied at once.",
+    level_text="Random sequences of every public call (connect_a, accept, send, receive, finish, await, fd, attribute get/set/get_all, remote/local addr, set_blocking(false), close) are made on non-blocking sockets of all transports held in each phase: resolving (stub resolver that never answers), TCP connecting (address whose SYNs are dropped), TLS handshaking (raw peer that accepts and stays silent), back-pressured, established, peer closed (seen and unseen), failed; plus connections driven from creation to readiness through a delayed resolver answer and a first candidate that does not answer; a third of the cases run with the control interface enabled and raw control clients that pipeline requests without ever reading the replies; every TLS case ends with a creation that fails on unreadable credentials followed by a fresh connection (a call that never returns is reported by the per-case watchdog after one retry). The shim flags the waiting primitive itself, whether or not the wait happened to be satisfied at once.",
     level_note="Waits issued through non-PLT internal calls of other libraries are invisible to the link-time shim. Documented blocking exceptions (xcm_set_blocking(true), synchronous resolution in xcm_server and of a named xcm.local_addr) are not exercised.",
     harness=STATES + ["c05.c"],
     stages=[dict(variant="asan", cases={"quick": 59 * 18, "thorough": 59 * 200}, timeout={"quick": 900, "thorough": 3400})],
-    floors={"quick": {"api_calls_watched": 150000, "phases_reached": 800, "alarm_checks": 150000, "progress_cases_established": 60, "distinct_nontrivial": 600},
+    floors={"quick": {"api_calls_watched": 150000, "phases_reached": 800, "alarm_checks": 150000, "progress_cases_established": 60, "ctl_clients_not_reading": 500, "creations_after_failed_tls_creation": 300, "distinct_nontrivial": 600},
             "thorough": {"api_calls_watched": 3000000, "phases_reached": 8000, "progress_cases_established": 600, "distinct_nontrivial": 600}},
     rule="one evaluation = one (transport, phase) socket set on which a random sequence of public calls is made with the wait monitor armed, or one connection driven through resolving/connecting/handshaking by finish calls; "
          "distinct = distinct (transport, phase, API) triples in which a call was watched; all cases that reached their phase are non-trivial",
